@@ -173,7 +173,7 @@ def gen_scenario(seed, opts):
                 files[out + "/keep"] = "text"
         argv = {"E": ["-E"], "S": ["-S"], "c": ["-c"], "link": [], "M": ["-M"]}[mode]
         nc = sum(1 for n, _ in inputs if n.endswith(".c"))
-        if mode in ("c", "S", "link") and tools == "stub" and r.below(6) == 0 and (nc == 1 or not use_o):
+        if mode in ("c", "S", "link") and tools == "stub" and r.below(6 if mode != "S" else 3) == 0 and (nc == 1 or not use_o):
             argv.append("-MD")            # dependency files are outputs too
             if nc == 1 and r.below(3) == 0:
                 argv += ["-MF", "dep%d.d" % i]
@@ -275,15 +275,15 @@ def gen_fault(r, m, enabled):
     if kind == "openw":
         if not procs:
             return None
-        return {"proc": r.pick(procs), "ev": "fopen-w", "n": 1, "act": "fail", "errno": r.pick([errno.EACCES, errno.ENOENT, errno.EISDIR, errno.ENOSPC])}
+        return {"proc": r.pick(procs), "ev": "fopen-w", "n": r.pick([1, 1, 2]), "act": "fail", "errno": r.pick([errno.EACCES, errno.ENOENT, errno.EISDIR, errno.ENOSPC])}
     if kind == "writeerr":
         if not procs:
             return None
-        return {"proc": r.pick(procs), "ev": "fopen-w", "n": 1, "act": "wbudget", "bytes": r.pick([0, 0, 1, 10, 37, 100, 200, 1000]), "errno": r.pick([errno.ENOSPC, errno.EIO])}
+        return {"proc": r.pick(procs), "ev": "fopen-w", "n": r.pick([1, 1, 2]), "act": "wbudget", "bytes": r.pick([0, 0, 1, 10, 37, 100, 200, 1000]), "errno": r.pick([errno.ENOSPC, errno.EIO])}
     if kind == "closeerr":
         if not procs:
             return None
-        return {"proc": r.pick(procs), "ev": "fopen-w", "n": 1, "act": "closefail", "errno": r.pick([errno.ENOSPC, errno.EIO, errno.EDQUOT])}
+        return {"proc": r.pick(procs), "ev": "fopen-w", "n": r.pick([1, 1, 2]), "act": "closefail", "errno": r.pick([errno.ENOSPC, errno.EIO, errno.EDQUOT])}
     if kind == "forkfail":
         if not procs:
             return None
@@ -1070,6 +1070,12 @@ def check(env, wdir, scn, res, solo, refs, which):
                 opened = any(lab == tu["cc1"] and k == "fopen-w" for lab, k, path in st["opens"])
                 how = next((h for lab, h in st["ended"] if lab == tu["cc1"]), "")
                 io_fault = any(lab == tu["cc1"] and w.split(" ")[0] in ("write", "close") for lab, w in st["fired"])
+                if io_fault:
+                    # the excuse holds only if the faulted stream was this unit's output: find which fopen-w the fault was attached to
+                    wopens = [path for lab, k, path in st["opens"] if lab == tu["cc1"] and k == "fopen-w"]
+                    hit = [f["n"] for f in inv["faults"] if f["proc"] == tu["cc1"] and f["ev"] == "fopen-w" and f["act"] in ("wbudget", "closefail")]
+                    if hit and all(n <= len(wopens) and os.path.basename(wopens[n - 1]) != os.path.basename(tu["output"]) for n in hit):
+                        io_fault = False
                 diagnosed = how.startswith(("after-exit-", "after-_exit-")) and not io_fault
                 # a compile error (any phase, code generation included) must leave the output alone whenever
                 # the compiler chooses to open it; only a writer that was killed or hit an injected write
